@@ -120,3 +120,11 @@ def c19_mixed_key_types(case, result):
             return len({cls(k) for k, _ in items}) > 1 or any(mixed(v) for _, v in items)
         return any(mixed(x) for x in s.get('L', s.get('T', [])))
     return mixed(case['arg'])
+
+def c16_self_named_key(case, result):
+    # Dict.__call__ where the mapping holds an entry, or the call passes a keyword, literally named 'self': the name collides with the
+    # self parameter of Dict.__call__ / wrapper.__call__ through which every entry is passed by keyword, and the call raises TypeError
+    if case.get('kind') != 'call':
+        return False
+    named_self = any(k == 'self' for k, _ in case.get('base', [])) or any(k == 'self' for k, _ in case.get('kw', []))
+    return named_self and 'TypeError' in (result.get('viol') or '') and 'TypeError' in str(result.get('obs'))
